@@ -583,3 +583,63 @@ pub fn witnesses() -> Vec<(&'static str, &'static str, History)> {
         ),
     ]
 }
+
+// ---------------------------------------------------------------------------------
+// Export for the replay on the unhooked build (/verif/plain): every check above runs against the
+// library built with the `verif` feature (instrumented atomics / map / queue). The instrumented
+// map hands out owned entries and takes no shard locks, so behaviour that depends on the real
+// containers (a map guard held across another map operation, for instance) is invisible there.
+// Generated histories are therefore also replayed, call by call, on the library built WITHOUT
+// the feature; every result and the aggregates after every call must be identical, and every
+// call must return.
+
+pub fn export_plain(hc: &HistCheck, tier: Tier, seed: u64, n: usize) -> serde_json::Value {
+    use proptest::strategy::{Strategy, ValueTree};
+    use proptest::test_runner::{Config, RngSeed, TestRunner};
+    let mut config = Config::default();
+    config.rng_seed = RngSeed::Fixed(splitmix(seed ^ 0x9_1A17));
+    config.failure_persistence = None;
+    let mut runner = TestRunner::new(config);
+    let mut cfg = (hc.cfg)(tier);
+    // (bulk sizes stay small here: the point is the call mix, not depth)
+    cfg.churn_pow = cfg.churn_pow.min(8);
+    cfg.burst_pow = cfg.burst_pow.min(7);
+    let strategy = history(cfg);
+    let mut cases = Vec::new();
+    let mut calls_total = 0u64;
+    for _ in 0..n {
+        let h = match strategy.new_tree(&mut runner) {
+            Ok(t) => t.current(),
+            Err(_) => continue,
+        };
+        let (it, _) = run_history(&h, true, false);
+        // blind replay on a fresh instrumented level: what the unhooked build has to reproduce
+        let level = pricelevel::PriceLevel::new(h.price);
+        let gen = pricelevel::UuidGenerator::new(uuid::Uuid::from_u128(0x5eed));
+        let mut calls = Vec::new();
+        for c in it.concrete.iter() {
+            let r = apply_concrete(&level, &gen, c, 200_000_000);
+            let agg = json!([level.visible_quantity(), level.hidden_quantity(), level.order_count()]);
+            let entry = match (c, &r) {
+                (Concrete::Add(o), OpResult::Added(_)) => json!({"k": "add", "order": o, "agg": agg}),
+                (Concrete::Match(q, taker), OpResult::Matched { fills, remaining, complete, filled, .. }) => json!({
+                    "k": "match", "qty": q, "taker": taker.to_string(),
+                    "fills": fills.iter().map(|f| json!([f.0.to_string(), f.1])).collect::<Vec<_>>(),
+                    "remaining": remaining, "complete": complete,
+                    "filled": filled.iter().map(|f| f.to_string()).collect::<Vec<_>>(), "agg": agg,
+                }),
+                (Concrete::Update(u), OpResult::Updated(res)) => json!({
+                    "k": "update", "update": u,
+                    "res": match res { Ok(o) => json!({"ok": o}), Err(_) => json!({"err": true}) },
+                    "agg": agg,
+                }),
+                (Concrete::Read(_), _) => continue,
+                _ => break, // a call that did not complete on the instrumented build: stop here
+            };
+            calls.push(entry);
+        }
+        calls_total += calls.len() as u64;
+        cases.push(json!({"price": h.price, "calls": calls}));
+    }
+    json!({"property": hc.id, "engine": "plain_replay", "cases": cases, "calls": calls_total})
+}
